@@ -654,6 +654,7 @@ def run_case(case):
     res.nontrivial = 1
     res.states.append(h64(repr(e)))
     fresh = {}
+    inline_bad = set()
     for d in fp.CTX:
         res.transitions += 1
         r = check_tree(e, d)
@@ -661,6 +662,7 @@ def run_case(case):
         fresh[d] = sql
         res.outcomes.append(h64(sql))
         if r is not None and r[0] != "invalid":
+            inline_bad.add(d)
             m, sgs = sig_for(e, d)
             for sg in sgs:  # one violation per culprit child: a composite witness is explained by its parts
                 dcls = "mysql" if d == "mysql" else "std"  # only MySQL lexes '--' differently
@@ -669,6 +671,37 @@ def run_case(case):
                 res.violate("C06|%s|%s" % (sg, dcls),
                             "rendered expression %s (dialect %s); minimal failing sub-tree %r" % (r[0], d, m),
                             tree=e, dialect=d, **r[1])
+    # parameterised rendering: placeholders are atoms; with the values put back the text must parse to the tree that was built
+    def pfails_for(d):
+        lexd = "sqlite" if d == "generic" else d
+
+        def pf(x):
+            try:
+                tx = T(x)
+            except (TypeError, AttributeError):
+                return False
+            try:
+                psql, vals = fp.render_param(tx, fp.CTX[d])
+                return norm(parse_expr(psql, lexd, values=list(vals))) != norm(B(x))
+            except (ParseError, LexError):
+                return True
+            except Exception:
+                return True
+        return pf
+
+    for d in fp.CTX:
+        if d in inline_bad:
+            continue  # already reported for the inline form
+        res.transitions += 1
+        pf = pfails_for(d)
+        if pf(e):
+            m, sgs = sig_for(e, d, pf)
+            psql, vals = fp.render_param(T(e), fp.CTX[d])
+            for sg in sgs:
+                res.violate("C06|%s|any" % sg if "criterion" in sg else "C06|%s|param" % sg,
+                            "the parameterised rendering does not group as built (minimal failing sub-tree %r)" % (m,),
+                            tree=e, dialect=d, inline=fresh[d], parameterised=psql, values=fp.vrepr(vals))
+            break
     # render history: every sub-term rendered (and hashed) on its own first - at top level, where a criterion carries no
     # parentheses - then the whole expression: the grouping must not depend on what was rendered before
     term2 = T(e)
